@@ -758,6 +758,37 @@ def s15(rep):
     rep.floor("whole-list implication queries in ablogic.c", n, 3)
 
 
+S16_MERGED = ("tblElt", "stabGetEntry", "stabEntryAllSymes", "stabGetMeanings", "stabEntryGetSymes", "stabFindLevel")
+
+
+def s16(rep):
+    """`Does this add body itself define export f: T?` is the question behind the missing-exports error (tiAddSymes,
+    terrorNotEnoughExports both ask stabGetDomainExportMod).  A level keeps two things: its own bindings (boundSymes, read by
+    stabGetExportedSymes) and a table of entries per name -- and an entry is a merged working copy: stabGetEntry copies outer
+    entries inward and stabSeeOuterImports adds outer meanings to every entry that has a constant of its own.  Answering the
+    question from the entry credits the domain with a same-named constant of the file or of an enclosing add, the error is
+    lost and the program that lacks the export compiles (Export not found at run time).  stabGetDomainExportMod walks the
+    level's own bindings and consults no entry of the table."""
+    f = common.extract("stab.c", trees=["stabGetDomainExportMod"])
+    fn = f.func("stabGetDomainExportMod")
+    own = bool(calls(fn["body"], "stabGetExportedSymes")) or any(y["k"] == "MemberExpr" and y["n"] == "boundSymes" for y in walk(fn["body"]))
+    merged = [c for c in calls(fn["body"]) if c.get("callee") in S16_MERGED] + \
+        [y for y in walk(fn["body"]) if y["k"] == "MemberExpr" and y["n"] == "tbl"]
+    where = "stab.c:%d (stabGetDomainExportMod)" % fn["l"]
+    if merged:
+        m = merged[0]
+        rep.violation("S16", "own-exports-from-own-bindings", "stab.c:%d (stabGetDomainExportMod)" % m["l"],
+                      "the exports a domain defines are looked up through `%s`, the level's table of entries, which are merged "
+                      "copies that also hold meanings of enclosing levels: a constant of the same name and type at file level "
+                      "(or in an enclosing add) counts as the domain's own export, the missing-exports error is not raised and "
+                      "the program compiles" % (m.get("callee") or "->tbl"))
+    elif not own:
+        raise AnalysisBroken("stabGetDomainExportMod no longer reads the level's own bindings (stabGetExportedSymes / boundSymes) "
+                             "nor the table: where the domain's exports come from has to be re-derived by hand")
+    else:
+        rep.ok("S16", "own-exports-from-own-bindings")
+
+
 def s12(rep):
     """A call is matched against a parameter list by tfSatAsMulti: a loop over the PARAMETERS finds for each one its argument
     (by position or by `name == value` keyword) or its default.  Arguments that no parameter took -- too many positional ones, or
@@ -834,6 +865,7 @@ def run(tier, only=None):
     s13(rep)
     s14(rep)
     s15(rep)
+    s16(rep)
     from . import variant_dispatch
     variant_dispatch.report_absyn(rep, "S10", ["ti_bup.c", "ti_tdn.c", "ti_sef.c", "scobind.c", "abcheck.c"], 180)
     from . import selfcompare
